@@ -182,17 +182,21 @@ Example groupby_label_refuted :
 Proof. vm_compute. reflexivity. Qed.
 
 (* batch: runs of [count] items whose concatenation is the input (the last run may be
-   shorter, or is padded to [count] with the fill value); count 0 is rejected *)
+   shorter, or is padded to [count] with the fill value); count 0 is rejected, and so is a
+   padding of more than 100000 fill items *)
 Theorem batch_concat : forall count fill v items, iter_items v = Ok items ->
   (count = 0 -> f_batch count fill v = Err E_InvalidOperation) /\
-  (0 < count -> exists runs, f_batch count fill v = Ok (VSeq (map VSeq runs)) /\ BatchLaw count fill items runs).
+  (0 < count ->
+     (exists runs, f_batch count fill v = Ok (VSeq (map VSeq runs)) /\ BatchLaw count fill items runs) \/
+     (f_batch count fill v = Err E_InvalidOperation /\ fill <> None /\ 100000 < batch_missing count items)).
 Proof. exact batch_law_values. Qed.
 
 (* slice: exactly [count] runs whose lengths differ by at most 1 (longer ones first), the
-   chunks concatenate to the input, a fill value extends exactly the short runs *)
+   chunks concatenate to the input, a fill value extends exactly the short runs; count 0 and
+   more than 100000 slices are rejected *)
 Theorem slice_concat_balanced : forall count fill v items, iter_items v = Ok items ->
-  (count = 0 -> f_slice count fill v = Err E_InvalidOperation) /\
-  (0 < count -> exists runs, f_slice count fill v = Ok (VSeq (map VSeq runs)) /\ SliceLaw count fill items runs).
+  (count = 0 \/ 100000 < count -> f_slice count fill v = Err E_InvalidOperation) /\
+  (0 < count <= 100000 -> exists runs, f_slice count fill v = Ok (VSeq (map VSeq runs)) /\ SliceLaw count fill items runs).
 Proof. exact slice_law_values. Qed.
 
 (* reverse: the items in reverse order, and an involution on the items -- for lists, tuples,
